@@ -793,6 +793,13 @@ def write_inputs(job, workdir):
     if job.get("build_file"):
         with open(os.path.join(workdir, "opts.bld"), "w") as fh:
             fh.write(job["build_file"])
+    if job.get("two_build_files") and (job.get("bld_templates") or job.get("bld_volumes")):
+        # -b sizes.bld rest.bld: the sizes in a first file, templates (last) and everything else in a second one
+        from gen import bldgen
+        with open(os.path.join(workdir, "sizes.bld"), "w") as fh:
+            fh.write(bldgen.render(None, None, job.get("bld_volumes"), None) if job.get("bld_volumes") else "")
+        with open(os.path.join(workdir, "opts.bld"), "w") as fh:
+            fh.write(bldgen.render(job.get("build_spec"), job.get("bld_templates"), None, job.get("bld_bending")))
     if job.get("grid_points") is not None:
         with open(os.path.join(workdir, "grid.dat"), "w") as fh:
             for p in job["grid_points"]:
@@ -822,6 +829,8 @@ def gen_coords_kwargs(job, workdir):
     if job.get("build_file") or job.get("build_spec") is not None or job.get("bld_templates") or job.get("bld_volumes") \
             or job.get("bld_bending"):
         kw["build"] = [Path(workdir) / "opts.bld"]
+        if job.get("two_build_files") and (job.get("bld_templates") or job.get("bld_volumes")):
+            kw["build"] = [Path(workdir) / "sizes.bld", Path(workdir) / "opts.bld"]
     if job.get("grid_points") is not None:
         kw["grid"] = str(Path(workdir) / "grid.dat")
     if job.get("coord_text") is not None:
@@ -866,6 +875,34 @@ def _pre_call_spec(job, workdir, kw):
             with open(p, "w") as fh:
                 fh.write(txt)
             os.utime(p, (1, 1))
+
+
+def _pre_call_build(job, workdir, kw):
+    """history: an earlier gen_coords call in this process read ANOTHER build file from the same path"""
+    from polyply.src.gen_coords import gen_coords
+    from vermouth.file_writer import DeferredFileWriter
+    path = os.path.join(workdir, "opts.bld")
+    real = open(path).read()
+    with open(path, "w") as fh:
+        fh.write(job["pre_build_text"])
+    kw2 = dict(kw)
+    kw2["outpath"] = Path(workdir) / "pre_out.gro"
+    kw2["maxiter"] = 2
+    random.seed(4321)
+    np.random.seed(4321)
+    cwd = os.getcwd()
+    os.chdir(workdir)
+    try:
+        gen_coords(**kw2)
+    except Exception:
+        try:
+            DeferredFileWriter().close()
+        except Exception:
+            pass
+    finally:
+        os.chdir(cwd)
+        with open(path, "w") as fh:
+            fh.write(real)
 
 
 def _pre_call(job, workdir, kw):
@@ -934,6 +971,9 @@ def run(job, props=("C03", "C04", "C05", "C06", "C07", "C15", "C17"), keep_dir=N
             # history: an earlier gen_coords call in this process read ANOTHER structure from the same input path
             _pre_call(job, workdir, kw)
             ctx.probe("earlier_call_same_input_path")
+        if job.get("pre_build_text") and kw.get("build") and not job.get("two_build_files"):
+            _pre_call_build(job, workdir, kw)
+            ctx.probe("earlier_call_same_build_file_path")
         saved = _install(ctx)
         random.seed(sysrng.getrandbits(32))
         np.random.seed(sysrng.getrandbits(32))
